@@ -621,6 +621,68 @@ func serverPhase(R *res.Result, rounds int) {
 	R.CountN("server:ids", len(seen))
 }
 
+// recoveredBoundProbe: the stored bound is written from outside with a value that is not a multiple of the window size
+// (pd-recover -alloc-id <n>, a restored backup), at or above every id handed out so far. Every later instance starts above it.
+func recoveredBoundProbe(e *etcdx.Etcd, admin *clientv3.Client, R *res.Result) {
+	root := "/c04/recovered"
+	ctx, cancel := context.WithTimeout(context.Background(), 30*time.Second)
+	defer cancel()
+	if _, err := admin.Put(ctx, path.Join(root, "leader"), member(1)); err != nil {
+		return
+	}
+	cli, _, err := e.NewClient()
+	if err != nil {
+		return
+	}
+	a := id.NewAllocator(cli, root, member(1))
+	seen := map[uint64]bool{}
+	var top uint64
+	for k := 0; k < 2400; k++ {
+		v, err := a.Alloc()
+		if err != nil {
+			return
+		}
+		seen[v] = true
+		if v > top {
+			top = v
+		}
+	}
+	for round, extra := range []uint64{100, 499, 1} {
+		written := top + extra // not a multiple of 1000
+		if written%1000 == 0 {
+			written++
+		}
+		if _, err := admin.Put(ctx, path.Join(root, "alloc_id"), string(typeutil.Uint64ToBytes(written))); err != nil {
+			return
+		}
+		cli2, _, err := e.NewClient()
+		if err != nil {
+			return
+		}
+		b := id.NewAllocator(cli2, root, member(1))
+		if err := b.Rebase(); err != nil {
+			return
+		}
+		R.Count("recovered-bound:probed")
+		for k := 0; k < 1200; k++ {
+			v, err := b.Alloc()
+			if err != nil {
+				return
+			}
+			if seen[v] || v <= written {
+				R.Violate("C04:duplicate-id:stored-bound-written-from-outside",
+					fmt.Sprintf("the stored bound was set to %d from outside (every id handed out so far is at most %d); a new instance then handed out %d", written, top, v),
+					map[string]interface{}{"written_bound": written, "largest_id_before": top, "id": v, "round": round})
+				return
+			}
+			seen[v] = true
+			if v > top {
+				top = v
+			}
+		}
+	}
+}
+
 // rebaseRaceProbe: Rebase (what a new leader calls) is stopped right after etcd applied its window reservation and
 // before it returns; meanwhile Alloc calls arrive on the same allocator (background jobs of a freshly elected PD) and use
 // up the current window. Whatever the interleaving, every id must be unique, increasing per caller, at most the stored
@@ -940,6 +1002,7 @@ func main() {
 	}
 	if *replay == "" {
 		rebaseRaceProbe(e, admin, R)
+		recoveredBoundProbe(e, admin, R)
 		serverPhase(R, *serverRounds)
 		(<-handover)(R)
 	}
